@@ -46,6 +46,9 @@ type Engine struct {
 	loopCount map[*ssa.BasicBlock]int
 	elemOf    map[*Value]elemRef
 	allocBudget int64
+	cexPrefer   *Term
+	allocSmall  int64
+	allocLarge  int
 	sampled     int
 	sizeCapped  int
 }
@@ -96,6 +99,7 @@ func (e *Engine) beginPath() {
 	e.pathData = map[string]interface{}{}
 	e.elemOf = map[*Value]elemRef{}
 	e.allocBudget = 0
+	e.allocSmall, e.allocLarge = 0, 0
 	e.vecPos = 0
 	e.depth = 0
 	e.curPanicFrame = nil
@@ -332,7 +336,10 @@ func (e *Engine) allocSize(n Term, elemBytes int, what string) int {
 	if e.allocBudget > 0 {
 		limit = e.allocBudget / int64(elemBytes)
 		within := Sle(n, BV(n.W, limit))
+		pref := And(Sle(BV(n.W, (1<<22)/int64(elemBytes)), n), Sle(n, BV(n.W, (1<<30)/int64(elemBytes))))
+		e.cexPrefer = &pref
 		e.doAssert(within, "allocation-proportional-to-input")
+		e.cexPrefer = nil
 		if !e.feasible(within) {
 			panic(infeasible{})
 		}
@@ -349,7 +356,11 @@ func (e *Engine) allocSize(n Term, elemBytes int, what string) int {
 		}
 		e.assume(within)
 	}
-	return e.concretizeSampled(n, 32, 3)
+	small, large := int64(32), 3
+	if e.allocSmall > 0 {
+		small, large = e.allocSmall, e.allocLarge
+	}
+	return e.concretizeSampled(n, small, large)
 }
 
 func parseModelInt(s string, w int) int {
@@ -967,11 +978,11 @@ func (e *Engine) lookup(in *ssa.Lookup, x, idx Value) Value {
 				if c.False() {
 					continue
 				}
-				none = And(none, Not(c))
 				if restrict != nil && !restrict[fmt.Sprint(kk)] {
-					e.sampled++ // key outside the stated candidate set: not explored
+					e.sampled++ // key outside the stated candidate set: not explored (and not excluded from "absent")
 					continue
 				}
+				none = And(none, Not(c))
 				cands = append(cands, kk)
 				conds = append(conds, c)
 			}
